@@ -18,7 +18,7 @@
    changes its outcome.  What is missing for the full statement: that numpy.linalg.svd's values satisfy these
    hypotheses (they do up to rounding; checked numerically by the correspondence), and irrational a / Q / t. *)
 From Coq Require Import List ZArith QArith Reals Permutation.
-From CE Require Import Model.Itv Model.KnnCounts Model.GeoKnn Proofs.ItvProofs Proofs.KdeProofs Proofs.GeoKnnProofs.
+From CE Require Import Model.Itv Model.KnnCounts Model.GeoKnn Model.GeoEllipsoid Proofs.ItvProofs Proofs.KdeProofs Proofs.GeoKnnProofs.
 Import ListNotations.
 Close Scope Q_scope.
 
@@ -118,6 +118,16 @@ Theorem C12_d1_laws_without_oracle :
      evalR [] (geo1_entropy_expr (e * D) k (map (scale c) pts)) = (evalR [] (geo1_entropy_expr D k pts) + ln (IZR c / IZR e))%R).
 Proof. exact (conj geo1_row_perm_invariant (conj geo1_isometry_invariant geo1_scale_law)). Qed.
 Print Assumptions C12_d1_laws_without_oracle.
+
+(* d = 2: the correspondence evaluates the singular-value term from the exact trace t/u and determinant dt/u^2 of
+   Y^T Y (u = (k+1)^2 D^2) with a square root, NO SVD data: it is log(sigma_1/sigma_0) for the two eigenvalues *)
+Theorem C12_d2_closed_form_is_singular_value_ratio : forall D p l t dt,
+  (0 < D)%Z -> (2 <= length l)%nat -> tr_det2 p l = (t, dt) -> (0 < dt)%Z -> (4 * dt <= t * t)%Z -> (0 < t)%Z ->
+  let u := IZR (Z.of_nat (length (p :: l)) * Z.of_nat (length (p :: l)) * (D * D)) in
+  exists l0 l1, (l0 + l1 = IZR t / u /\ l0 * l1 = IZR dt / (u * u) /\ 0 < l1 <= l0 /\
+                 evalR [] (sv_term2 D p l) = ln (sqrt l1 / sqrt l0))%R.
+Proof. exact sv_term2_meaning. Qed.
+Print Assumptions C12_d2_closed_form_is_singular_value_ratio.
 
 (* the hypotheses on the SVD data are jointly satisfiable in EVERY dimension: the exactly computed trace data obey
    them (order-freeness; covariance under every similarity), so the laws above are not vacuous *)
